@@ -270,6 +270,19 @@ def probe(p):
     """bounded dynamic probe of the real crate (a stated-bound stand-in, never counted as proved): runs `verif-replay probe <args>`
     in a child process with an 8 MiB stack; a crash (signal) or exit status 1 is a failure WITH a concrete input."""
     t0 = time.time()
+    if p.get('kind') == 'agreement':
+        # exhaustive bounded agreement run of a real function (through the verif-hooks facade) with the oracle of its assumed contract
+        fr = falsify(p['args'][0], 0)
+        rec = dict(harness=p['name'], target=p['target'], claim=p['claim'], bound=p['bound'], complete=False, trusted=[], solver_s=0.0,
+                   cmd=fr.get('cmd', 'verif-falsify %s 0' % p['args'][0]), output=fr.get('outcome', ''))
+        if not fr.get('ran'):
+            rec.update(status='undecided', message='agreement run did not run: %s' % str(fr.get('reason', fr))[:300])
+        elif fr.get('falsified'):
+            rec.update(status='failed', message=fr['outcome'][:400], counterexample=fr['outcome'],
+                       replay=dict(fails_on_real_code=True, input_hex=fr['outcome'][:400], cmd=fr['cmd'], outcome=fr['outcome'][:400]))
+        else:
+            rec.update(status='discharged', message='')
+        return rec
     exe, log = build_replay()
     rec = dict(harness=p['name'], target=p['target'], claim=p['claim'], bound=p['bound'], complete=False, trusted=[], solver_s=0.0,
                cmd='(ulimit -s 8192; verif-replay probe %s)' % ' '.join(p['args']))
